@@ -226,6 +226,34 @@ def direct (c1 c2 : Circuit) : Except Err Bool := do
       directWalk g1 g2 w (g1.nodes.length + 1) (.inp w) (.inp w)) true
   else return false
 
+/-! ## `direct` on operation lists (the form the theorems use; the driver checks on every input that it agrees with
+       the walk over the multigraph above) -/
+
+/-- `isinstance(op1, type(op2))` for two gate operations -/
+def opClsMatch : Op → Op → Bool
+  | .wrap _ _, .wrap _ _ => true
+  | a, b =>
+    match a.cls, b.cls with
+    | some ka, some kb => isSubclass ka kb
+    | _, _ => false
+
+def opMatchL (a b : Op) : Bool := opClsMatch a b && a.qRegs == b.qRegs
+
+/-- the wire walk: operation by operation, and both wires must end together (the final comparison is Output vs Output) -/
+def walkL : List Op → List Op → Bool
+  | [], [] => true
+  | a :: as, b :: bs => opMatchL a b && walkL as bs
+  | _, _ => false
+
+def touches (w : Wire) (o : Op) : Bool := (opWires o).contains w
+
+def allWires (c : Circuit) : List Wire :=
+  (List.range c.ne).map (fun i => ⟨.e, i⟩) ++ (List.range c.np).map (fun i => ⟨.p, i⟩) ++ (List.range c.nc).map (fun i => ⟨.c, i⟩)
+
+def directL (c1 c2 : Circuit) : Bool :=
+  c1.ne == c2.ne && c1.np == c2.np && c1.nc == c2.nc && (flat c1.ops).length == (flat c2.ops).length &&
+  (allWires c1).all fun w => walkL ((flat c1.ops).filter (touches w)) ((flat c2.ops).filter (touches w))
+
 /-! ## `circuit_is_isomorphic` -/
 
 /-- `_create_edge_control_target_attr(operation, reg_type, reg)` -/
